@@ -56,7 +56,13 @@ def populate_exception(err_type: type, err_args: Any, err_state: Dict,
     :param traceback_str: The traceback string of the exception
     :return: A tuple of the exception and the original exception
     """
-    err = err_type.__new__(err_type)
+    # Builtin exceptions keep some of their attributes in slots which are filled from the arguments by the constructor
+    # (e.g., OSError.errno, SystemExit.code). So we try the constructor first, like unpickling an exception would do, and
+    # fall back to a bare instance when the constructor doesn't accept the arguments
+    try:
+        err = err_type(*err_args)
+    except Exception:
+        err = err_type.__new__(err_type)
     err.args = err_args
     err.__dict__.update(err_state)
     traceback_err = Exception(highlight_traceback(traceback_str))
